@@ -21,8 +21,9 @@ import os
 PID = "C08"
 ALPH = [" ", "\t", "\n", "\xa0", "a", "b"]
 MODES = [("raw", False, False), ("clean", True, False), ("collapse", True, True), ("raw", False, True)]
-NAMES = ["a", "b", "item", "para", "literalLayout", "title"]
-PREFIXES = ["p", "q", "eml"]
+# XML names are more than \w+: hyphen, dot, underscore, digits inside (ASCII only: names travel to TLC as strings)
+NAMES = ["a", "b", "item", "para", "literalLayout", "title", "data-set", "unit.type", "x_1", "n2", "_u", "A.B-c_d", "a-"]
+PREFIXES = ["p", "q", "eml", "my-ns", "p.q"]
 URIS = ["urn:one", "urn:two", "http://example.org/ns#x"]
 
 
@@ -61,11 +62,11 @@ def rdoc(rnd, depth, scope, top=False):
     for _ in range(rnd.choice([0, 0, 1, 2, 3])):
         kind = rnd.random()
         if kind < 0.5:
-            an = rnd.choice(["id", "scope", "system", "n"])
+            an = rnd.choice(["id", "scope", "system", "n", "plain-attr", "a.b", "_x"])
         elif kind < 0.7:
             an = "xml:" + rnd.choice(["lang", "space"])
         elif sc:
-            an = rnd.choice(list(sc)) + ":" + rnd.choice(["type", "ref", "n"])
+            an = rnd.choice(list(sc)) + ":" + rnd.choice(["type", "ref", "n", "scale-factor", "ref.id", "_y"])
         else:
             continue
         # one attribute per (expanded) name: two prefixes may be bound to one URI, so keep local names unique
